@@ -9,7 +9,7 @@ import random
 
 from harness import par, schemagamma, tlc
 
-OPS = ["{ a }", "{ l(x: 1) }", "{ l(x: 1, y: [{f: 1, g: 2}]) }", "{ l(y: {g: 3}) }", "{ n { id } }", "{ n { ... on A { s id } } }",
+OPS = ["{ a @tag(lvl: L) }", "{ a }", "{ l(x: 1) }", "{ l(x: 1, y: [{f: 1, g: 2}]) }", "{ l(y: {g: 3}) }", "{ n { id } }", "{ n { ... on A { s id } } }",
        "{ u { ... on A { s } ... on B { id } } }", "{ u { __typename } }", "{ e }", "query @tag(n: 1) { a @tag }",
        "{ n { ...F } } fragment F on A { id s }", "query ($v: In) { l(y: [$v]) }", "query ($v: Int) { l(x: $v) }", "{ l(y: [{f: 1}]) }"]
 
@@ -68,6 +68,18 @@ def _worker(cases):
                 continue
             classes = [(type(ch).__name__, str(ch.message), ch.severity) for ch in changes]
             wit["reported"] = [(a, b, int(sv)) for a, b, sv in classes]
+            # the documented filter option selects among the SAME changes: what is reported with min_severity = S is what the
+            # unfiltered call reports with a severity of at least S (so "no breaking change reported" means the same either way)
+            for sev in (SchemaChangeSeverity.BREAKING, SchemaChangeSeverity.DANGEROUS):
+                try:
+                    got = sorted((type(ch).__name__, str(ch.message), int(ch.severity)) for ch in diff_schema(old, new, min_severity=sev))
+                except Exception as e:
+                    out.setdefault("diff/raises/%s/min-severity/%s" % (type(e).__name__, label), ["diff_schema(min_severity=...) raises", dict(wit, error=repr(e))])
+                    continue
+                want = sorted((a, b, int(sv)) for a, b, sv in classes if sv >= sev)
+                if got != want:
+                    out.setdefault("diff/min-severity-is-not-a-filter/%s/%s" % (sev.name if hasattr(sev, "name") else int(sev), "+".join(lab(e) for e in edits)),
+                                   ["diff_schema(min_severity=S) differs from the unfiltered result restricted to severities >= S", dict(wit, filtered=got, expected=want)])
             if all(e["kind"] in ("identity", "remove-deprecation") for e in edits):
                 if classes:
                     out.setdefault("diff/spurious-on-equal-schemas/%s" % order, ["changes reported for structurally equal schemas", wit])
